@@ -17,7 +17,16 @@ else
   echo "patch_applies=no"; git -C /repo worktree remove --force "$WT"; exit 1
 fi
 echo "demo_with_patch_exit=$(run_demo)"
-( cd "$WT" && PYTHONPATH="$WT/src" timeout 1500 /venv/bin/python -m pytest -q -p no:cacheprovider -n 6 -k "not postgres" --timeout=900 2>&1 | tail -1 | sed 's/^/suite_with_patch: /' )
+( cd "$WT" && PYTHONPATH="$WT/src" timeout 1500 /venv/bin/python -m pytest -q -p no:cacheprovider -n 6 -k "not postgres" --timeout=900 -rf > "/tmp/val-$LABEL.suite.log" 2>&1
+  tail -1 "/tmp/val-$LABEL.suite.log" | sed 's/^/suite_with_patch: /'
+  FAILED=$(grep -E "^FAILED " "/tmp/val-$LABEL.suite.log" | awk '{print $2}' | sort -u)
+  for t in $FAILED; do
+    echo "failed_under_load: $t"
+    # a test that fails only under the parallel load of this sandbox is re-run alone (3 times) with the patch still applied
+    ok=0; for i in 1 2 3; do PYTHONPATH="$WT/src" timeout 600 /venv/bin/python -m pytest -q -p no:cacheprovider "$t" >/dev/null 2>&1 && ok=$((ok+1)); done
+    echo "rerun_alone: $t passed $ok/3"
+  done
+  rm -f "/tmp/val-$LABEL.suite.log" )
 } > "$OUT" 2>&1
 git -C /repo worktree remove --force "$WT" >/dev/null 2>&1
 cat "$OUT"
